@@ -78,7 +78,10 @@ Inductive op :=
 | SetMF (v : Z)             (* SETTINGS_MAX_FRAME_SIZE := v *)
 | AppWrite (i : nat)        (* the application of manual stream i writes its next chunk *)
 | AppFinish (i : nat)       (* the application of manual stream i calls request.finish() *)
-| Req (i : nat) (a : application).   (* the request for stream i arrives now (not before the loop first ran) *)
+| Req (i : nat) (a : application)    (* the request for stream i arrives now (not before the loop first ran) *)
+| Drain.                    (* the reactor keeps running pending calls until the loop parks or nothing has been sent for
+                               [quiet_limit] consecutive iterations (a stream with an exhausted window keeps the loop
+                               spinning, so "no pending call" alone is not a quiescence test); at most 300 calls *)
 
 Definition set_streams (l : list stream) (s : st) : st := mk l (cwin s) (maxf s) (iw s) (last s) (scheduled s) (log s).
 Definition emit (e : ev) (s : st) : st := mk (streams s) (cwin s) (maxf s) (iw s) (last s) (scheduled s) (e :: log s).
@@ -306,6 +309,20 @@ Definition request (i : nat) (a : application) (s : st) : st :=
 
 
 
+Definition quiet_limit : nat := 12.
+
+Fixpoint drain (fuel quiet : nat) (s : st) : st :=
+  match fuel with
+  | O => s
+  | S f =>
+      if scheduled s then
+        let s1 := run_iter s in
+        if Nat.eqb (List.length (log s1)) (List.length (log s))
+        then (if Nat.leb quiet_limit (S quiet) then s1 else drain f (S quiet) s1)
+        else drain f O s1
+      else s
+  end.
+
 Definition step (s : st) (o : op) : st :=
   match o with
   | Adv => if scheduled s then run_iter s else s
@@ -325,6 +342,7 @@ Definition step (s : st) (o : op) : st :=
   | AppWrite i => app_write i s
   | AppFinish i => app_finish i s
   | Req i a => request i a s
+  | Drain => drain 300 0 s
   end.
 
 
